@@ -89,7 +89,14 @@ impl PathData {
                 .as_ref()
                 .filter(|_| allow_mtud)
                 .map_or_else(
-                    || MtuDiscovery::disabled(config.get_initial_mtu(), config.min_mtu),
+                    || {
+                        MtuDiscovery::disabled(
+                            config
+                                .get_initial_mtu()
+                                .min(peer_max_udp_payload_size.unwrap_or(u16::MAX)),
+                            config.min_mtu,
+                        )
+                    },
                     |mtud_config| {
                         MtuDiscovery::new(
                             config.get_initial_mtu(),
